@@ -230,14 +230,20 @@ class LaunchMethod(object):
 
         # kill the process group which should include the actual launch method
         try:
+            # the task leads its own process group, unless the pilot is
+            # configured without `new_session_per_task`: then it shares the
+            # group of the agent and only the process itself can be signalled
+            if os.getpgid(pid) == pid: kill = os.killpg
+            else                     : kill = os.kill
+
             self._log.debug('killing task %s (%d)', task['uid'], pid)
-            os.killpg(pid, signal.SIGTERM)
+            kill(pid, signal.SIGTERM)
 
             # also send a SIGKILL to drive the message home.
             # NOTE: the `sleep` will limit the cancel throughput!
             try:
                 time.sleep(0.1)
-                os.killpg(pid, signal.SIGKILL)
+                kill(pid, signal.SIGKILL)
             except OSError:
                 pass
 
